@@ -8,7 +8,8 @@ from harness import core, sexp
 
 NASTY = ['plain text', '<script>XSS1</script>', '"><img src=x onerror=XSS2>', "' onmouseover='XSS3", 'a & b &amp; c', '{code} {0} {message!r}',
          '{{ x }} {#sec}{/sec} {>partial/}', 'é 中 ✓', 'tab\tnew\nline', '</title></head><body>XSS4', '<![CDATA[XSS5]]>', '<!-- XSS6 -->',
-         '&lt;already&gt;', '\x07bell\x1bescape', '%s %d %(x)s', 'http://evil/"onclick="XSS7', 'https://ok.example/errors/invalid_token', '', 'x' * 3000]
+         '&lt;already&gt;', '\x07bell\x1bescape', '%s %d %(x)s', 'http://evil/"onclick="XSS7', 'https://ok.example/errors/invalid_token', '', 'x' * 3000,
+         '&<"\'' * 1500, 'a' * 2043 + '&&&&' + 'b' * 4000, ('<tag attr="v">' + "it's & more ") * 400]
 ACCEPTS = [None, 'text/html', 'application/json', 'application/xml', 'text/plain', '*/*', 'text/*', 'application/*',
            'text/html;q=0.2, application/json;q=0.9', 'image/png', 'image/png, */*;q=0.1', 'application/json;q=0', '', 'garbage;;q=x, ,',
            'TEXT/HTML', 'text/html, application/xhtml+xml, application/xml;q=0.9, */*;q=0.8']
@@ -68,9 +69,18 @@ def build(case):
     def make():
         cls = classes[case['cls']]
         kw = dict((k, v) for k, v in case['fields'].items() if k != 'detail')
+        kw.update(case.get('response_kw') or {})        # content_type= / mimetype= of the Response side: negotiation decides anyway
         if case['cls'] == 'MethodNotAllowed':
             return cls(None, case['fields'].get('detail'), **kw)
         return cls(case['fields'].get('detail'), **kw)
+
+    shared = []
+
+    def reused():
+        # one error instance answered again and again (a module-level singleton): each client gets its own format
+        if not shared:
+            shared.append(make())
+        return shared[0]
 
     def raiser():
         raise make()
@@ -81,7 +91,7 @@ def build(case):
     def boom():
         secret_local = case['nasty']
         raise ValueError(case['nasty'])
-    return Application([('/raise', raiser), ('/return', returner), ('/boom', boom)], debug=debug)
+    return Application([('/raise', raiser), ('/return', returner), ('/reused', reused), ('/boom', boom)], debug=debug)
 
 
 def impl(case):
@@ -150,7 +160,7 @@ def oracle(case, obs):
         if o['exc']:
             return ('%s: %s escaped' % (what, o['exc']), 'escape')
         kind = rq['path'].split('/')[1]
-        want_status = exp['code'] if kind in ('raise', 'return') else (500 if kind == 'boom' else 404)
+        want_status = exp['code'] if kind in ('raise', 'return', 'reused') else (500 if kind == 'boom' else 404)
         if o['status'] != want_status:
             return ('%s: status %s, expected %s' % (what, o['status'], want_status), 'status')
         ctype = (o['ctype'] or '').split(';')[0].strip()
@@ -169,7 +179,7 @@ def oracle(case, obs):
                 return ('%s: JSON body does not parse: %s' % (what, e), 'json')
             if not all(k in j for k in ('code', 'message', 'detail', 'error_type')):
                 return ('%s: JSON body lacks one of code/message/detail/error_type: %s' % (what, sorted(j)), 'json-fields')
-            if kind in ('raise', 'return') and (j['code'] != exp['code'] or j['message'] != exp['message']):
+            if kind in ('raise', 'return', 'reused') and (j['code'] != exp['code'] or j['message'] != exp['message']):
                 return ('%s: JSON code/message %r/%r' % (what, j['code'], j['message']), 'json-fields')
         if ctype in ('text/html', 'application/xml'):
             for t in TOKENS:
@@ -180,7 +190,7 @@ def oracle(case, obs):
                 sk = html_skeleton(body)
             except Exception as e:
                 return ('%s: HTML body does not tokenize: %s' % (what, e), 'html')
-            if case['handler'] == 'default' and kind in ('raise', 'return') and not case['cls'].startswith('Contextual'):
+            if case['handler'] == 'default' and kind in ('raise', 'return', 'reused') and not case['cls'].startswith('Contextual'):
                 want = [['decl'], ['start', 'html', []], ['start', 'head', []], ['start', 'title', []], ['end', 'title'], ['end', 'head'],
                         ['start', 'body', []], ['start', 'h1', []], ['end', 'h1']]
                 if exp['detail']:
@@ -190,7 +200,7 @@ def oracle(case, obs):
                 want += [['end', 'body'], ['end', 'html']]
                 if sk != want:
                     return ('%s: HTML tag sequence %s differs from the fixed skeleton %s' % (what, sk[:14], want), 'html-skeleton')
-        if ctype == 'application/xml' and kind in ('raise', 'return'):
+        if ctype == 'application/xml' and kind in ('raise', 'return', 'reused'):
             text = ''.join(str(v) for v in exp.values() if v is not None)
             if all(ord(ch) >= 32 or ch in '\t\n\r' for ch in text):
                 import xml.dom.minidom
@@ -218,10 +228,13 @@ def gen_case(rng, tier, classes):
         fields['code'] = rng.choice([418, 499, 599, 400])
     reqs = []
     for _ in range(6 if tier == 'quick' else 16):
-        kind = rng.choice(['raise', 'return', 'raise', 'boom', 'missing'])
+        kind = rng.choice(['raise', 'return', 'raise', 'boom', 'missing', 'reused'])
         path = '/' + kind if kind != 'missing' else '/nf/' + rng.choice(['<script>XSS1</script>', 'a"b', "x'y", 'plain', '<!-- XSS6 -->'])
         reqs.append({'path': path, 'accept': rng.choice(ACCEPTS)})
-    return {'cls': cls, 'fields': fields, 'nasty': nasty, 'handler': rng.choice(['default', 'default', 'debug']), 'requests': reqs}
+    response_kw = rng.choice([None, None, None, {'content_type': 'application/json'}, {'mimetype': 'application/json'},
+                              {'content_type': 'text/html; charset=utf-8'}, {'mimetype': 'application/xml'}])
+    return {'cls': cls, 'fields': fields, 'nasty': nasty, 'handler': rng.choice(['default', 'default', 'debug']), 'requests': reqs,
+            'response_kw': response_kw}
 
 
 def shrink(case):
@@ -266,7 +279,7 @@ def run(rep, b, tier, seed, only_cases=None):
             continue
         exp = expected_fields(c)
         for k, (rq, r) in enumerate(zip(c['requests'], o['requests'])):
-            if rq['path'] not in ('/raise', '/return') or c['cls'].startswith(('InternalServerError', 'Contextual')) or exp['code'] >= 500:
+            if rq['path'] not in ('/raise', '/return', '/reused') or c['cls'].startswith(('InternalServerError', 'Contextual')) or exp['code'] >= 500:
                 continue
             et = sexp.some(exp['error_type'].encode('utf8')) if exp['error_type'] is not None else 'None'
             mime = sexp.some(r['best']) if r['best'] is not None else 'None'
